@@ -1,0 +1,99 @@
+//go:build verif
+
+// Hooks for the verification harness in /verif (C26, C27, C28). Add-only:
+// nothing in this file is compiled without the `verif` build tag and nothing
+// here changes the behaviour of the package; it only exports access to
+// unexported functions and state.
+
+package opcua
+
+import (
+	"sort"
+
+	"github.com/gopcua/opcua/ua"
+)
+
+// VerifSetPendingAcks replaces c.pendingAcks.
+func (c *Client) VerifSetPendingAcks(acks []*ua.SubscriptionAcknowledgement) {
+	c.subMux.Lock()
+	c.pendingAcks = acks
+	c.subMux.Unlock()
+}
+
+// VerifPendingAcks returns a copy of c.pendingAcks.
+func (c *Client) VerifPendingAcks() []ua.SubscriptionAcknowledgement {
+	c.subMux.RLock()
+	defer c.subMux.RUnlock()
+	out := make([]ua.SubscriptionAcknowledgement, 0, len(c.pendingAcks))
+	for _, a := range c.pendingAcks {
+		out = append(out, *a)
+	}
+	return out
+}
+
+// VerifHandleAcks calls handleAcks_NeedsSubMuxLock with the lock held.
+func (c *Client) VerifHandleAcks(res []ua.StatusCode) {
+	c.subMux.Lock()
+	defer c.subMux.Unlock()
+	c.handleAcks_NeedsSubMuxLock(res)
+}
+
+// VerifAddSub registers a bare subscription (no server involved).
+func (c *Client) VerifAddSub(id, lastSeq, nextSeq uint32) *Subscription {
+	s := &Subscription{SubscriptionID: id, lastSeq: lastSeq, nextSeq: nextSeq, items: map[uint32]*monitoredItem{}, c: c}
+	c.subMux.Lock()
+	c.subs[id] = s
+	c.subMux.Unlock()
+	return s
+}
+
+// VerifHandleNotification calls handleNotification_NeedsSubMuxLock for the
+// registered subscription res.SubscriptionID; false if it is not registered.
+func (c *Client) VerifHandleNotification(res *ua.PublishResponse) bool {
+	c.subMux.Lock()
+	defer c.subMux.Unlock()
+	sub, ok := c.subs[res.SubscriptionID]
+	if !ok {
+		return false
+	}
+	c.handleNotification_NeedsSubMuxLock(sub, res)
+	return true
+}
+
+// VerifSeq returns lastSeq and nextSeq of a subscription.
+func (s *Subscription) VerifSeq() (last, next uint32) { return s.lastSeq, s.nextSeq }
+
+// VerifItemCount returns the number of monitored items the client holds for
+// the subscription.
+func (s *Subscription) VerifItemCount() int {
+	s.itemsMu.Lock()
+	defer s.itemsMu.Unlock()
+	return len(s.items)
+}
+
+// VerifSubs returns the registered subscriptions sorted by id.
+func (c *Client) VerifSubs() []*Subscription {
+	c.subMux.RLock()
+	defer c.subMux.RUnlock()
+	out := make([]*Subscription, 0, len(c.subs))
+	for _, s := range c.subs {
+		out = append(out, s)
+	}
+	sort.Slice(out, func(i, j int) bool { return out[i].SubscriptionID < out[j].SubscriptionID })
+	return out
+}
+
+// VerifChanLens returns len and cap of pausech and resumech.
+func (c *Client) VerifChanLens() (pauseLen, pauseCap, resumeLen, resumeCap int) {
+	return len(c.pausech), cap(c.pausech), len(c.resumech), cap(c.resumech)
+}
+
+// VerifTryNumSubs reports len(c.subs) if subMux can be read-locked right now;
+// ok is false while a writer holds (or waits for) the lock.
+func (c *Client) VerifTryNumSubs() (n int, ok bool) {
+	if !c.subMux.TryRLock() {
+		return 0, false
+	}
+	defer c.subMux.RUnlock()
+	return len(c.subs), true
+}
